@@ -1,4 +1,5 @@
 """pyvc.verify -- proof tasks: one per contract / lemma; modular reasoning at call sites and loops."""
+import ast
 import importlib
 import inspect
 import sys
@@ -236,7 +237,8 @@ def exec_loop_with_invariant(ctx, s, fr, spec, kind, iterable=None):
     base = "%s/loop%d" % (ctx.proof_label_for(fr), ctx.loop_key(s, fr))
 
     def ns_now(extra=None):
-        ns = dict(fr.locals)
+        ns = {n: specmod.UNSET for n in spec.vars}
+        ns.update(fr.locals)
         ns.update(ctx.ghost)
         if extra:
             ns.update(extra)
@@ -279,6 +281,41 @@ def exec_loop_with_invariant(ctx, s, fr, spec, kind, iterable=None):
                 ctx.prove(base + "/variant", z3.And(int_term(v0) >= 0,
                                                     int_term(v1) <= int_term(v0) - spec.min_decrease))
             raise PathEnd()
+        ctx.exec_block(s.orelse, fr)
+        return
+    # ---- for over the items of a concrete dict, each exactly once, in an ARBITRARY order.
+    # Order independence is proved by non-interference: every iteration, run in ISOLATION from the
+    # loop-entry state (the other iterations' locals unbound, so reading one raises
+    # UnboundLocalError), binds only its own declared locals; the declared write sets are pairwise
+    # disjoint.  Then every order computes what the canonical order computes, which is executed.
+    if spec.any_order:
+        items = ctx.iter_concrete(iterable)
+        keys = [it[0] if isinstance(it, tuple) else it for it in items]
+        allw = [set(spec.writes.get(k, ())) for k in keys]
+        disjoint = all(not (allw[i] & allw[j]) for i in range(len(keys)) for j in range(i))
+        ctx.note_oblig(base + "/write-sets-disjoint", "valid" if disjoint else "refuted")
+        k = ctx.choose(len(items) + 1, "order")
+        if k < len(items):
+            before = dict(fr.locals)
+            ctx.assign(s.target, items[k], fr)
+            try:
+                ctx.exec_block(s.body, fr)
+            except (E._Break, E._Continue):
+                pass
+            changed = {n for n, v in fr.locals.items() if n not in before or before[n] is not v}
+            tnames = {n.id for n in ast.walk(s.target) if isinstance(n, ast.Name)}
+            extra = changed - set(spec.writes.get(keys[k], ())) - tnames - set(spec.temps)
+            ctx.note_oblig(base + "/non-interference#%s" % keys[k], "valid" if not extra else "refuted",
+                           {"note": "iteration for %r also binds %s" % (keys[k], sorted(extra))} if extra else None)
+            raise PathEnd()
+        for it in items:
+            ctx.assign(s.target, it, fr)
+            try:
+                ctx.exec_block(s.body, fr)
+            except E._Break:
+                return
+            except E._Continue:
+                continue
         ctx.exec_block(s.orelse, fr)
         return
     # ---- for key in <instance dict with unknown entries>: abstract iteration (any count, any order)
@@ -513,7 +550,7 @@ def run_contract(eng, c, clause_filter=None):
             res.add("%s/exec" % label, "unknown", note="out of subset: %s" % ctx.note)
         if ctx.status == "escaped":
             res.add("%s/exec" % label, "unknown", note="spec/engine raised: %s" % ctx.note)
-        if ctx.outcome is not None and ctx.outcome[0] == "ret":
+        if ctx.outcome is not None and ctx.outcome[0] in ("ret", "raise"):
             nret += 1
         for ob in ctx.obligs:
             witness = None
@@ -525,7 +562,7 @@ def run_contract(eng, c, clause_filter=None):
     # vacuity guards
     if c.ensures and nret == 0 and not any(o["status"] != "valid" for o in res.obligs.values()):
         res.add("%s/cover" % label, "unknown", backend="eval",
-                note="no feasible path reaches a normal return: vacuous contract?")
+                note="no feasible path reaches the end of the function: vacuous contract?")
     elif c.ensures:
         res.add("%s/cover" % label, "valid", backend="eval")
     res.time = time.time() - t0
